@@ -284,7 +284,13 @@ def monitor(events, obs):
         if not any(k == key for k, _, _ in out):
             out.append((key, what, detail))
     prev = {'parent': None, 'children': [], 'live': [], 'session': False, 'peers': []}
+    sess = False              # a session exists, according to the EVENTS (not to the implementation's own flag)
     for i, (ev, o) in enumerate(zip(events, obs)):
+        sess_before = sess
+        if ev[0] == 'SI':
+            sess = True
+        elif ev[0] == 'SD':
+            sess = False
         qs = {c: [m for m in msgs if m[0] == 'Q'] for c, msgs in o['conn'].items()}
         qs = {c: m for c, m in qs.items() if m}
         if o.get('late'):
@@ -305,7 +311,7 @@ def monitor(events, obs):
             # the carrier connection is already closed: nothing is delivered, nothing may happen
             if qs or o['replies']:
                 add('search-from-closed-connection-handled', 'a request fed on a closed connection had effects', det)
-        elif own and prev['session']:
+        elif own and sess_before:
             if qs or o['replies']:
                 add(F17_KEY if carrier in ('DS', 'LS') else 'own-server-search-forwarded-or-answered',
                     'a search of the logged-in user was ' + ' and '.join(x for x, y in (('forwarded', qs), ('answered', o['replies'])) if y), det)
@@ -330,7 +336,7 @@ def monitor(events, obs):
                 else:
                     add('search-sent-to-non-child', 'the request was sent to a connection that is not a current child', det)
             # ---- answer
-            if prev['session']:
+            if sess_before:
                 vis, locked = o['oracle']
                 want = ([{'user': 'me', 'ticket': t, 'visible': vis, 'locked': locked}]
                         if (code_ok and (vis or locked) and u not in BLOCKED) else [])
@@ -441,6 +447,10 @@ LATE_VARIANTS = [
     {'outcomes': ['ok', 'ok'], 'carriers': ['DS', 'SS']},
     {'outcomes': ['fail', 'ok', 'ok'], 'carriers': ['DS', 'DS', 'SS']},
     {'outcomes': ['fail', 'fail', 'ok'], 'carriers': ['SS', 'LS', 'DS']},
+    # the asker is a member of our neighbourhood in the tree (distributed connection open, no peer connection yet)
+    {'outcomes': ['ok'], 'carriers': ['SS'], 'asker_is': 'parent'},
+    {'outcomes': ['ok', 'ok'], 'carriers': ['SS', 'SS'], 'asker_is': 'child'},
+    {'outcomes': ['ok'], 'carriers': ['SS'], 'asker_is': 'candidate'},
 ]
 
 
@@ -458,8 +468,16 @@ def run_late_asker(variant):
     out = []
     try:
         rig.session_init()
-        rig.peer_init(1, 'alice', True)
+        who = variant.get('asker_is')
+        rig.peer_init(1, user if who == 'parent' else 'alice', True)
         rig.peer_msg(1, M.DistributedBranchLevel.Request(0))          # a parent, for the distributed carriers
+        if who == 'child':
+            rig.peer_init(2, user, False)
+        elif who == 'candidate':
+            rig.peer_init(2, user, True)
+            rig.peer_msg(1, M.DistributedBranchLevel.Request(0))
+        for c in list(rig.eps):
+            rig.conn_new(c)
         tickets = []
         for i, car in enumerate(variant['carriers']):
             t = 100 + i
@@ -499,6 +517,11 @@ def run_late_asker(variant):
                 if isinstance(m, M.PeerSearchReply.Request):
                     got.append({'user': m.username, 'ticket': m.ticket, 'visible': sorted(canon(f.filename) for f in m.results),
                                 'locked': sorted(canon(f.filename) for f in (m.locked_results or []))})
+        # nothing but distributed messages may be written on distributed connections
+        stray = {c: m for c, m in ((c, [x for x in rig.conn_new(c) if x[0] == '?']) for c in sorted(rig.eps)) if m}
+        if stray:
+            out.append(('reply-written-on-distributed-connection', 'bytes that are not a distributed message were written on a distributed '
+                        'connection (the search reply went to the tree neighbour over the D connection)', {'late_asker': variant, 'stray': stray}))
         n_ok = sum(1 for oc in variant['outcomes'] if oc == 'ok')
         det = {'late_asker': variant, 'tickets': tickets, 'replies': got, 'connections_that_succeeded': n_ok,
                'connect_attempts_left_unused': len(rig._want)}
